@@ -325,6 +325,11 @@ func (q *TaskQueue) addAfter(id string, newTask task.Task) {
 		}
 	}
 
+	// No task with such id: leave the queue as is, do not leave a nil slot at the end.
+	if !idFound {
+		return
+	}
+
 	q.items = newItems
 }
 
@@ -357,6 +362,11 @@ func (q *TaskQueue) addBefore(id string, newTask task.Task) {
 			// when id is found, copy other taskы to i+1 position
 			newItems[i+1] = t
 		}
+	}
+
+	// No task with such id: leave the queue as is, do not leave a nil slot at the end.
+	if !idFound {
+		return
 	}
 
 	q.items = newItems
